@@ -904,6 +904,27 @@ class Interp:
                 return None
             v2 = ast.copy_location(ast.Call(func=v.func, args=v.args, keywords=v.keywords), v)
             v2._param_offset = 0
+            # a helper that takes the node itself as a parameter (`_enqueue_retained(self, x, md)`): analyse a clone in which
+            # that parameter is called `self`, so that field accesses through it are the node's fields
+            idx = next((i for i, a in enumerate(v.args) if isinstance(a, ast.Name) and a.id == 'self'), None)
+            tparams = target.params()
+            if idx is not None and idx < len(tparams) and tparams[idx] != 'self':
+                clones = target.__dict__.setdefault('_self_clones', {})
+                if idx not in clones:
+                    import copy as _copy
+                    pname = tparams[idx]
+
+                    class Ren(ast.NodeTransformer):
+                        def visit_Name(self_, n):
+                            return ast.copy_location(ast.Name(id='self', ctx=n.ctx), n) if n.id == pname else n
+
+                        def visit_arg(self_, n):
+                            return ast.copy_location(ast.arg(arg='self', annotation=n.annotation), n) if n.arg == pname else n
+                    node2 = Ren().visit(_copy.deepcopy(target.node))
+                    f2 = Func(target.module, target.qual, node2, cls=self.cls, parent=None)
+                    f2.owner = None
+                    clones[idx] = f2
+                target = clones[idx]
             return v2, target, awaited
         if not isinstance(v.func, ast.Attribute):
             return None
